@@ -37,3 +37,16 @@ class Ast(object):
 
     def ordered(self, items):
         return sorted(items, key=id)   # R-SETITER: ordering by id()
+
+
+from functools import lru_cache
+
+
+@lru_cache(maxsize=None)
+def the_interpreter():        # R-GLOBAL: a memoised function that builds an object hands the same object to every caller
+    return make_interpreter(Visitor)()
+
+
+@lru_cache(maxsize=None)
+def the_interpreter_class():  # fine: a class may be built once
+    return interpreter_factory(Visitor)
